@@ -340,9 +340,62 @@ static std::string do_writer_retry(const Args &a)
     return "retry";
 }
 
+// a stream buffer that accepts a few characters and then throws, on a stream that rethrows (exceptions(badbit)): whatever
+// the library does with USER code that throws underneath it, the exception must come back to the caller as an exception
+// (or be absorbed into the stream state) — not end the process.  Only that is observed.
+struct ThrowingBuf : public std::streambuf {
+    int left;
+    explicit ThrowingBuf(int n) : left(n) {}
+    int_type overflow(int_type c) override { if (left-- <= 0) throw std::runtime_error("sink full"); return c; }
+    std::streamsize xsputn(const char *, std::streamsize n) override
+    {
+        if (n > left) { left = 0; throw std::runtime_error("sink full"); }
+        left -= int(n);
+        return n;
+    }
+};
+static std::string do_throwsink(const Args &a)
+{
+    Block<char> fb = units<char>(a[0], 1);
+    Parsed p;
+    parse_args(a, 1, p);
+    for (int mask = 0; mask < 2; ++mask) {
+        ThrowingBuf buf(g_align);
+        std::ostream os(&buf);
+        if (mask) os.exceptions(std::ios_base::badbit | std::ios_base::failbit);
+        try {
+            switch (p.av.size()) {
+            case 0: ST::writef(os, fb.data()); break;
+            case 1: ST::writef(os, fb.data(), p.av[0]); break;
+            case 2: ST::writef(os, fb.data(), p.av[0], p.av[1]); break;
+            default: ST::writef(os, fb.data(), p.av[0], p.av[1], p.av[2]); break;
+            }
+        } catch (const std::exception &) {
+        }
+    }
+    return "safe";
+}
+// a formatter_ref obtained from the public make_formatter_ref and used after the argument it was made from has gone
+// (a deferred logger): the closure must own what it needs
+static std::string do_fmtref(const Args &a)
+{
+    ST::formatter_ref_t f;
+    {
+        Block<char> b = units<char>(a[0]);
+        ST::string tmp = ST::string::from_validated(b.data(), b.size());
+        f = ST::make_formatter_ref(tmp);
+        tmp = ST::string();
+    }
+    CollectWriter w("{}");
+    if (w.next_format()) { ST::format_spec spec = w.parse_format(); f(spec, w); }
+    return "safe";
+}
+
 static std::string dispatch(const std::string &op, const Args &a)
 {
     if (op == "format") return do_format(a);
+    if (op == "throwsink") return do_throwsink(a);
+    if (op == "fmtref") return do_fmtref(a);
     if (op == "writer_retry") return do_writer_retry(a);
     if (op == "strtol") {
         Block<char> b = units<char>(a[0], 1);
